@@ -11,9 +11,17 @@
  *  bpf_get_current_uid_gid   = current_gid  << 32 | current_uid          (linux/bpf.h)
  *  bpf_probe_read(_kernel)   = copy, returns 0
  *
- * A pointer returned by bpf_map_lookup_elem stays valid until the end of the program run even if
- * the element is deleted meanwhile (RCU): deleted nodes are parked and freed by maps_quiesce(),
- * which the driver calls between events.
+ * Element storage is PREALLOCATED, as for the kernel's default hash / LRU hash maps: a deleted (or evicted)
+ * element goes back to the map's free list and the next insertion of a new key takes the most recently
+ * freed element and overwrites its key and value IN PLACE.  A pointer returned by bpf_map_lookup_elem stays
+ * addressable for the whole program run, but after the element was deleted it may show another caller's
+ * data as soon as some other program run (another CPU) inserts a key.
+ *
+ * Two test facilities for the driver (never active unless armed by a script line):
+ *  - maps_inject(kind, k, err): the k-th call of that helper kind (update / delete) made by the NEXT program
+ *    run fails with -err and has no effect (the kernel's -EBUSY / -ENOMEM / -E2BIG paths);
+ *  - maps_sched(k, fn): right after the k-th map helper call of the NEXT program run returns, fn() runs:
+ *    another caller's program on another CPU between two helper calls of this one.
  */
 #include <errno.h>
 #include <stdio.h>
@@ -29,6 +37,7 @@ struct node {
 };
 
 struct vmap {
+    struct node *free_list; /* most recently freed first */
     void *handle;
     const char *name;
     __u32 type, key_size, value_size, max_entries;
@@ -39,8 +48,15 @@ struct vmap {
 #define MAX_MAPS 16
 static struct vmap maps[MAX_MAPS];
 static int nmaps;
-static struct node *graveyard;
+static struct node *graveyard; /* only used by maps_reset */
 static struct verif_task current_task;
+/* fault injection and the scheduler point (see below) */
+static int inj_kind, inj_k, inj_err;     /* armed for the next program run */
+static int inj_count[3];                 /* calls of each kind in the current run */
+static int sched_k;
+static void (*sched_fn)(void);
+static int helper_calls;                 /* map helper calls in the current run */
+static int in_nested;
 
 void maps_register(void *handle, const char *name, __u32 type, __u32 key_size, __u32 value_size,
                    __u32 max_entries)
@@ -62,6 +78,7 @@ void maps_register(void *handle, const char *name, __u32 type, __u32 key_size, _
     m->value_size = value_size;
     m->max_entries = max_entries;
     m->head = NULL;
+    m->free_list = NULL;
     m->count = 0;
 }
 
@@ -99,8 +116,16 @@ void maps_reset(void)
             maps[i].head = n->next;
             free_node(n);
         }
+        while (maps[i].free_list) {
+            struct node *n = maps[i].free_list;
+            maps[i].free_list = n->next;
+            free_node(n);
+        }
         maps[i].count = 0;
     }
+    inj_kind = 0;
+    sched_fn = NULL;
+    in_nested = 0;
 }
 
 /* returns the link that points at the node with this key, or NULL */
@@ -118,6 +143,65 @@ static void move_to_front(struct vmap *m, struct node **pp)
     *pp = n->next;
     n->next = m->head;
     m->head = n;
+}
+
+/* ---- fault injection and the scheduler point ----------------------------------------------------- */
+
+void maps_inject(int kind, int k, int err) { inj_kind = kind; inj_k = k; inj_err = err; }
+void maps_sched(int k, void (*fn)(void)) { sched_k = k; sched_fn = fn; }
+void maps_run_begin(void)
+{
+    if (in_nested)
+        return;
+    helper_calls = 0;
+    inj_count[0] = inj_count[1] = inj_count[2] = 0;
+}
+/* returns 1 if the scheduler point never fired during the run */
+int maps_run_end(void)
+{
+    if (in_nested)
+        return 0;
+    int pending = sched_fn != NULL;
+    inj_kind = 0;
+    sched_fn = NULL;
+    return pending;
+}
+static int injected(int kind)
+{
+    if (in_nested || inj_kind != kind)
+        return 0;
+    if (++inj_count[kind] == inj_k) {
+        inj_kind = 0;
+        return inj_err;
+    }
+    return 0;
+}
+static void helper_returned(void)
+{
+    if (in_nested)
+        return;
+    if (sched_fn && ++helper_calls == sched_k) {
+        void (*fn)(void) = sched_fn;
+        sched_fn = NULL;
+        struct verif_task saved = current_task;
+        in_nested = 1;
+        fn();
+        in_nested = 0;
+        current_task = saved;
+    }
+}
+
+static struct node *take_free(struct vmap *m)
+{
+    struct node *n = m->free_list;
+    if (n)
+        m->free_list = n->next;
+    return n;
+}
+static void give_free(struct vmap *m, struct node *n)
+{
+    n->next = m->free_list;
+    m->free_list = n;
 }
 
 static void *lookup(struct vmap *m, const void *key, int from_program)
@@ -155,13 +239,15 @@ static long update(struct vmap *m, const void *key, const void *value, __u64 fla
             last = &(*last)->next;
         struct node *victim = *last;
         *last = NULL;
-        victim->next = graveyard;
-        graveyard = victim;
+        give_free(m, victim);
         m->count--;
     }
-    struct node *n = calloc(1, sizeof *n);
-    n->key = malloc(m->key_size);
-    n->val = malloc(m->value_size);
+    struct node *n = take_free(m);
+    if (!n) {
+        n = calloc(1, sizeof *n);
+        n->key = malloc(m->key_size);
+        n->val = malloc(m->value_size);
+    }
     memcpy(n->key, key, m->key_size);
     memcpy(n->val, value, m->value_size);
     if (m->type == BPF_MAP_TYPE_LRU_HASH) {
@@ -171,6 +257,7 @@ static long update(struct vmap *m, const void *key, const void *value, __u64 fla
         struct node **tail = &m->head;
         while (*tail)
             tail = &(*tail)->next;
+        n->next = NULL;
         *tail = n;
     }
     m->count++;
@@ -184,19 +271,32 @@ static long delete(struct vmap *m, const void *key)
         return -ENOENT;
     struct node *n = *pp;
     *pp = n->next;
-    n->next = graveyard;
-    graveyard = n;
+    give_free(m, n);
     m->count--;
     return 0;
 }
 
 /* ---- the helpers called by the BPF program -------------------------------------------- */
-void *bpf_map_lookup_elem(void *map, const void *key) { return lookup(find_map(map), key, 1); }
+void *bpf_map_lookup_elem(void *map, const void *key)
+{
+    void *r = lookup(find_map(map), key, 1);
+    helper_returned();
+    return r;
+}
 long bpf_map_update_elem(void *map, const void *key, const void *value, __u64 flags)
 {
-    return update(find_map(map), key, value, flags);
+    int e = injected(MAPS_INJECT_UPDATE);
+    long r = e ? -e : update(find_map(map), key, value, flags);
+    helper_returned();
+    return r;
 }
-long bpf_map_delete_elem(void *map, const void *key) { return delete(find_map(map), key); }
+long bpf_map_delete_elem(void *map, const void *key)
+{
+    int e = injected(MAPS_INJECT_DELETE);
+    long r = e ? -e : delete(find_map(map), key);
+    helper_returned();
+    return r;
+}
 
 __u64 bpf_get_current_pid_tgid(void)
 {
